@@ -990,7 +990,8 @@ def main():
     if prop == 'C07' and tier == 'quick':
         # every scenario carries the deadlock monitors; the quick tier takes a seed-selected half
         scen = [s for i, s in enumerate(scen) if (i + seed) % 2 == 0]
-    budget = {'classes': 40, 'seconds': 40, 'flips_per_trace': 30} if tier == 'quick' else {'classes': 1500, 'seconds': 900, 'flips_per_trace': 400}
+    # the class budget is the binding one (deterministic); the wall-clock cap only guards against a loaded machine
+    budget = {'classes': 60, 'seconds': 400, 'flips_per_trace': 40} if tier == 'quick' else {'classes': 1500, 'seconds': 1800, 'flips_per_trace': 400}
     import multiprocessing as mp
     t0 = time.time()
     with mp.Pool(jobs) as pool:
